@@ -106,7 +106,7 @@ theorem fingerprints_expected : fingerprints = [
   ("index_builder.go:raiseSequenceID", "64d334a9a3f41fa8"),
   ("tag_filters.go:Marshal", "67a89d9ca08f1c09"),
   ("tag_filters.go:matchSuffix", "520f861ae539e8a2"),
-  ("cache.go:reset", "63df5eff28437003"),
+  ("cache.go:reset", "06c95275aad5263b"),
   ("cache.go:getFromTagFilterCache", "45750a3bc88179bd"),
   ("marshal.go:marshalTagValue", "87efd916d1022058"),
   ("marshal.go:marshalCompositeTagKey", "e99969cda4622cf5"),
